@@ -464,4 +464,6 @@ def obligations(tier):
     return [Ob('three-modes', 'symx', 'file = pipe = run; child started verbatim with the right environment and stdio; output before prompt; exit status', FUNCS, bounds, modes, cases=cases,
                stubs=['subprocess / threading / os.pipe / os.fdopen / os.close / os.environ replaced in runner.py', 'open() and sys.stdin replaced in main.py', 'protocol.load_all stubbed'],
                outside='real kernel/C-library behaviour (byte chunking, TextIOWrapper, thread scheduling, join timeout, real exit statuses)', budget_s=1200),
+            Ob('main-block', 'symx', 'main.py run as __main__: the program\'s own words (after -r) change nothing wayland-debug itself shows or logs', FUNCS[:1] + ['main:__main__'], '9 x 4 x 6 argument vectors',
+               __import__('harness.c19', fromlist=['main_block']).main_block, cases=[None], stubs=['run_program / run_gdb / protocol.load_all replaced by recorders']),
             Ob('three-modes-reachable', 'symx', 'reachability twin', FUNCS, bounds, twin, cases=[(2, 0, 'stream')], expect_cex=True)]
